@@ -172,3 +172,51 @@ Proof. intros H. unfold dotimes_counter, dotimes_iters. rewrite launch_counter_s
 Example dotimes_negative_example :
   dotimes_counter (-2) 3 = 3 /\ dotimes_counter 0 3 = 3 /\ dotimes_counter 2 3 = 5.
 Proof. repeat split; reflexivity. Qed.
+
+(* ---- the launched goroutine: Done on every exit path, whatever the launch context *)
+
+Lemma launch_done_on_every_exit_lemma ctx_live e c :
+  0 < c -> launch_goroutine ctx_live e c = (c - 1, RUnit).
+Proof.
+  intros H. unfold launch_goroutine, posthook_runs_hook. rewrite wg_add_ok by lia.
+  replace (c + -1) with (c - 1) by lia. reflexivity.
+Qed.
+
+(* Launch with ANY state of the launch context and ANY way the body ends gives the counter back *)
+Lemma launch_cancelled_ctx_balanced_lemma ctx_live e c :
+  0 <= c -> launch_roundtrip ctx_live e c = (c, RUnit) /\ launch_body_runs ctx_live = true.
+Proof.
+  intros H. unfold launch_roundtrip. rewrite wg_add_ok by lia.
+  rewrite launch_done_on_every_exit_lemma by lia. split; [f_equal; lia|reflexivity].
+Qed.
+
+Lemma launch_all_roundtrip_spec n ctx_live e : forall c,
+  0 <= c -> launch_all_roundtrip n ctx_live e c = (c, Z.of_nat n).
+Proof.
+  induction n as [|n IH]; intros c H; [reflexivity|].
+  cbn [launch_all_roundtrip]. destruct (launch_cancelled_ctx_balanced_lemma ctx_live e c H) as [-> ->].
+  rewrite IH by lia. f_equal. lia.
+Qed.
+
+(* what the two excluded shapes do instead: the count leaks *)
+Lemma launch_if_after_hook_leaks e c :
+  0 <= c -> (let '(c1, _, _) := wg_add c 1 in launch_goroutine_if_after_hook false e c1) = (c + 1, RUnit).
+Proof. intros H. rewrite wg_add_ok by lia. reflexivity. Qed.
+
+Lemma launch_seq_hook_leaks_on_goexit ctx_live c :
+  0 <= c -> (let '(c1, _, _) := wg_add c 1 in launch_goroutine_seq_hook ctx_live ExGoexit c1) = (c + 1, RUnit) /\
+            (let '(c1, _, _) := wg_add c 1 in launch_goroutine_seq_hook ctx_live ExPanic c1) = (c + 1, RUnit).
+Proof. intros H. rewrite wg_add_ok by lia. split; reflexivity. Qed.
+
+(* ---- Wait's zero-check outside the mutex loses a wake-up: Add 1; check (1 <> 0); Done (0, Broadcast, nobody parked);
+   lock and park.  The waiter sleeps although the counter is zero and its context is live. *)
+Lemma wait_check_outside_lock_refuted_lemma :
+  exists s, ureach s /\ u_counter s = 0 /\ u_waiter s = UParked.
+Proof.
+  exists (mkU 0 UParked). split; [|split; reflexivity].
+  eapply ur_step; [eapply ur_step; [eapply ur_step; [eapply ur_step; [apply ur_init|]|]|]|].
+  - eapply (u_add _ 1). reflexivity.
+  - apply u_check_nonzero; simpl; [reflexivity|lia].
+  - eapply (u_add _ (-1)). reflexivity.
+  - apply (u_lock_and_park (mkU 0 UChecked)). reflexivity.
+Qed.
